@@ -169,6 +169,84 @@ theorem list_dirty_forever (cfg : Cfg) (s s' : Scn) (h : List Op) (l : Field) (c
     ∃ c', s'.lists l = some c' ∧ c'.dirty = true :=
   run_list_dirty_mono h s s' c hr hc hd
 
+/-! ## fields of structs inside lists (`sections[X].list[i].f`) -/
+
+/-- **the user's value of a record field is the saved value** (setting off), from any state in which the retriever
+satisfies the reachable-state invariant `CellOk`: as long as the managers keep an object for record `i` and the user
+neither re-assigns the cell nor the list, every later file holds `v` – through commits, growth and shrinking of the
+list, edits of other records. Both variants. -/
+theorem user_rec_value_saved_from (cfg : Cfg) (ha : cfg.allow = false) (s₁ s : Scn) (h₂ : List Op) (l : Field) (i : Nat)
+    (f : Field) (v : Option Val) (c : Cell (List Rec)) (recs : List Rec) (r : Rec) (x : Cell Val)
+    (hc : s₁.lists l = some c) (hd : c.data = some recs) (hr : recs[i]? = some r) (hx : r f = some x) (hok : CellOk x)
+    (hm : i < (s₁.mobjs l).length) (hno : ∀ op ∈ h₂, ¬ op.reassigns l i f)
+    (hobjs : ∀ op ∈ h₂, ∀ objs, op = .mgrObjs l objs → i < objs.length)
+    (hrun : run cfg s₁ (Op.userRec l i f v :: h₂) = .ok s) : savedRec s l i f = v := by
+  obtain ⟨s2, hs, hr2⟩ := run_cons hrun
+  have h2 : RecCellIs s2 l i f v := by
+    simp only [step, hc, hd, hr, hx] at hs
+    cases hs
+    have hlt : i < recs.length := by
+      rcases Nat.lt_or_ge i recs.length with h | h
+      · exact h
+      · rw [List.getElem?_eq_none h] at hr; cases hr
+    refine ⟨{ data := some (recs.set i (recSet r f (x.userSet v))), dirty := c.dirty }, recs.set i (recSet r f (x.userSet v)),
+      recSet r f (x.userSet v), by simp [listSet], rfl, by simp [hlt], ?_, hm⟩
+    have := userSet_dirty x v hok
+    simp only [Cell.userSet] at this
+    simp [Dirty.recSet, Cell.userSet, this]
+  obtain ⟨c', recs', r', hc', hd', hr', hf', _⟩ := run_recCell ha h₂ s2 s hr2 h2 hno hobjs
+  simp [savedRec, savedRecs, hc', hd', hr', hf']
+
+/-- the same from a freshly loaded scenario, after any history that did not touch the list directly -/
+theorem user_rec_value_saved (cfg : Cfg) (ha : cfg.allow = false) (hdf : DfltLoaded cfg) (s₀ s₁ s : Scn)
+    (h₁ h₂ : List Op) (l : Field) (i : Nat) (f : Field) (v : Option Val)
+    (hl : Loaded s₀) (hex : (s₀.lists l).isSome = true) (h1 : ∀ op ∈ h₁, ¬ op.touchesList l)
+    (hr1 : run cfg s₀ h₁ = .ok s₁) (hfield : (savedRec s₁ l i f).isSome = true)
+    (hm : i < (s₁.mobjs l).length) (hno : ∀ op ∈ h₂, ¬ op.reassigns l i f)
+    (hobjs : ∀ op ∈ h₂, ∀ objs, op = .mgrObjs l objs → i < objs.length)
+    (hrun : run cfg s₁ (Op.userRec l i f v :: h₂) = .ok s) : savedRec s l i f = v := by
+  cases h0 : s₀.lists l with
+  | none => rw [h0] at hex; cases hex
+  | some c₀ =>
+    have hl0 := hl.lists l c₀ h0
+    cases hd0 : c₀.data with
+    | none => have := hl0.1.1; rw [hd0] at this; cases this
+    | some recs₀ =>
+      obtain ⟨c, recs, hc, hd, hall⟩ := run_recsLoaded hdf h₁ s₀ s₁ hr1 ⟨c₀, recs₀, h0, hd0, hl0.2 recs₀ hd0⟩ h1
+      -- the record and its field exist (that is what `hfield` says)
+      simp only [savedRec, savedRecs, hc, hd, Option.bind_some] at hfield
+      cases hri : recs[i]? with
+      | none => rw [hri] at hfield; cases hfield
+      | some r =>
+        rw [hri] at hfield
+        simp only [Option.bind_some] at hfield
+        cases hx : r f with
+        | none => rw [hx] at hfield; cases hfield
+        | some x =>
+          have hrl : RecLoaded r := hall r (List.mem_of_getElem? hri)
+          exact user_rec_value_saved_from cfg ha s₁ s h₂ l i f v c recs r x hc hd hri hx (hrl f x hx).ok hm hno hobjs hrun
+
+/-- **record fields the user did not touch follow the manager's objects**: after any history without a direct edit
+of list `l`, a save writes, for every object the manager holds, the object's value into its record (the last link of
+the object for `f` decides). Both settings, both variants. -/
+theorem untouched_rec_follows_manager (cfg : Cfg) (hdf : DfltLoaded cfg) (s₀ s s' : Scn) (h : List Op)
+    (pre post : List Push) (l : Field) (refresh : List (Field × Deriv)) (i : Nat) (o opre opost : MObj) (f : Field)
+    (v : Val) (hl : Loaded s₀) (hex : (s₀.lists l).isSome = true) (hn : ∀ op ∈ h, ¬ op.touchesList l)
+    (hr : run cfg s₀ h = .ok s) (hp : cfg.prog = pre ++ Push.objs l refresh :: post)
+    (hpost : ∀ p ∈ post, ¬ p.isObjs l) (ho : (s.mobjs l)[i]? = some o) (hsplit : o = opre ++ (f, v) :: opost)
+    (hlast : ∀ x ∈ opost, x.1 ≠ f) (hs : save cfg s = .ok s') : savedRec s' l i f = some v := by
+  unfold save at hs
+  rw [hp] at hs
+  cases h0 : s₀.lists l with
+  | none => rw [h0] at hex; cases hex
+  | some c₀ =>
+    have hl0 := hl.lists l c₀ h0
+    cases hd0 : c₀.data with
+    | none => have := hl0.1.1; rw [hd0] at this; cases this
+    | some recs₀ =>
+      have hi := run_recsLoaded hdf h s₀ s hr ⟨c₀, recs₀, h0, hd0, hl0.2 recs₀ hd0⟩ hn
+      exact commit_rec_lands hdf hs hpost hi ho hsplit hlast
+
 /-! ## the pinned library violates the bookkeeping clause (defect F2) -/
 
 open Aoe.Dirty.Example in
@@ -237,6 +315,13 @@ example : recVal (run (cfg false false) scn [.mgrObjs 10 [trig "a"], .save, .use
     = some (some (.tok "mine")) := by decide
 example : recVal (run (cfg true false) scn [.mgrObjs 10 [trig "a"], .save, .userRec 10 0 20 (some (.tok "mine")), .save]) 10 0 20
     = some (some (.tok "a")) := by decide
+-- hypotheses of the record-field theorems: a history that does not touch the list directly, an object with a last link
+example : ∀ op ∈ [Op.mgrObjs 10 [trig "a"], Op.save, Op.userSet 0 none], ¬ op.touchesList 10 := by
+  intro op h; simp at h; rcases h with rfl | rfl | rfl <;> exact id
+example : ∀ op ∈ [Op.save, Op.userRec 10 1 20 none, Op.mgrObjs 10 [trig "a", trig "b"]], ¬ op.reassigns 10 0 20 := by
+  intro op h; simp at h; rcases h with rfl | rfl | rfl <;> simp [Op.reassigns]
+example : trig "a" = [] ++ (20, Val.tok "a") :: [] := rfl
+example : (scn.lists 10).isSome = true := by decide
 -- the repaired library refuses to grow a list the user assigned (the objects have no record: IndexError)
 example : isOk (run (cfg false true) scn [.userList 10 (some []), .mgrObjs 10 [trig "a"], .save]) = false := by decide
 -- … while the pinned library extends the user's list in place (the user's value does not win there)
